@@ -2,16 +2,17 @@
 (* constant wrappers for Interaction: all magnitude-class assignments (user matrix: below / equal /
    above the cutoff per pair; register: below / above), both interaction types, every SLM mask subset,
    mask end on a step boundary (2), inside a step (3), at the end of the sequence (6) or no mask (0),
-   both backends' query rules; three steps 0-2-4-6.                                                *)
+   both backends' query rules; a regular grid 0-2-4-6 and an irregular one 0-1-2-4-5-6 (off-grid
+   evaluation times before and after the mask end).                                                *)
 EXTENDS Interaction
 (* scenario sets are FILTERS over a record product (TLC enumerates those lazily; a big UNION of record
    sets is normalised first, which is quadratic) *)
 AllRecords == [custom : BOOLEAN, htype : {"ising", "xy"}, cls : [UPairs -> {"below", "equal", "above"}], mask : SUBSET Atoms,
-               slmEnd : {0, 2, 3, 6}, T : {<<0, 2, 4, 6>>}, backend : {"sv", "mps"}]
+               slmEnd : {0, 2, 3, 6}, T : {<<0, 2, 4, 6>>, <<0, 1, 2, 4, 5, 6>>}, backend : {"sv", "mps"}]
 NEqual(f) == Cardinality({p \in UPairs : f[p] = "equal"})
 MaskEndOK(s) == (s.mask = {}) = (s.slmEnd = 0)
 cScn == {s \in AllRecords : MaskEndOK(s) /\ (~s.custom => NEqual(s.cls) = 0)}
 (* N = 4 (thorough tier): every below / above assignment of the six pairs, for a user matrix also every
    assignment with exactly one pair equal to the cutoff; Rydberg interaction; every mask subset *)
-cScn4 == {s \in AllRecords : MaskEndOK(s) /\ s.htype = "ising" /\ NEqual(s.cls) <= (IF s.custom THEN 1 ELSE 0)}
+cScn4 == {s \in AllRecords : MaskEndOK(s) /\ s.T = <<0, 2, 4, 6>> /\ s.htype = "ising" /\ NEqual(s.cls) <= (IF s.custom THEN 1 ELSE 0)}
 ====
